@@ -68,6 +68,62 @@ def wavelet_complete(order, d, pidx):
     return True
 
 
+def local_parents(rule, p):
+    """RuleLocal::getParent and getStepParent of the effective rule (orders != 0): the points whose presence the statement asks for"""
+    if rule in ("localp", "semi-localp"):
+        if p == 0:
+            return []
+        dad = (p + 1) // 2 - (1 if p < 4 else 0)
+        return [dad] + ([2] if (rule == "semi-localp" and p == 3) else [1] if (rule == "semi-localp" and p == 4) else [])
+    if rule == "localp-zero":
+        return [] if p == 0 else [(p - 1) // 2]
+    if p < 2:       # localp-boundary
+        return []
+    return [(p + 1) // 2] + ([0] if p == 2 else [])
+
+
+def local_missing_parents(rule, order, d, pidx):
+    """number of (point, direction, parent) triples whose parent / step-parent is not loaded; 0 = the hypothesis of the statement holds"""
+    if rule == "semi-localp" and order < 2:
+        rule = "localp"     # GridLocalPolynomial uses the localp effective rule
+    pts = set(tuple(pidx[i:i + d]) for i in range(0, len(pidx), d))
+    return sum(1 for p in pts for j in range(d) for q in local_parents(rule, p[j]) if p[:j] + (q,) + p[j + 1:] not in pts)
+
+
+# Fixed histories (task I1): adaptive refinement of a peaked function.  The non-'stable' criteria leave points whose parents are not loaded; on such
+# sets GridLocalPolynomial::updateSurpluses walks computeDAGup's links to the nearest PRESENT ancestor and misses ancestors whose basis does not
+# vanish at the node, so the loaded values are NOT reproduced (1e-6 .. 2e-3) for every rule (d >= 3) and, through the dropped step-parent of the
+# semi-local rule, already in 2-d.  The statement of C01 excludes these sets (Local Polynomial: "whenever every loaded point has all of its
+# hierarchical parents loaded"), so they are not violations: they are judged as the statement says (complete states must reproduce; incomplete
+# states must agree with the faithful model Model/LocalGridUp.v, whose certificate must be false when the implementation does not reproduce) and
+# the observed non-reproduction is counted in the coverage.  (cid, dims, depth, order, rule, criterion, rounds)
+WITNESS = [
+    ("w-semi2-fds", 2, 3, 2, "semi-localp", "fds", 3),          # 221 points, (3,15) misses its present step-parent (2,15): error 2.1e-3
+    ("w-semi2-dir", 2, 4, 2, "semi-localp", "direction", 2),
+    ("w-semi2-classic", 2, 3, 2, "semi-localp", "classic", 3),
+    ("w-semi2-o3", 2, 3, 3, "semi-localp", "fds", 3),
+    ("w-semi3-classic", 3, 4, 2, "semi-localp", "classic", 3),  # the history of the observation (3-d, depth 4, order 2, 3 x classic 1e-3)
+    ("w-semi3-o3-fds", 3, 3, 3, "semi-localp", "fds", 3),
+    ("w-semi3-stable", 3, 4, 2, "semi-localp", "stable", 2),    # complete: must reproduce
+    ("w-localp3-fds", 3, 3, 3, "localp", "fds", 3),
+    ("w-localp3-stable", 3, 3, 3, "localp", "stable", 2),
+    ("w-localp3-o1", 3, 4, 1, "localp", "classic", 3),
+    ("w-localp0-3", 3, 3, 1, "localp-zero", "direction", 3),
+    ("w-localpb3", 3, 2, 1, "localp-boundary", "direction", 3),
+    ("w-localpb3-o2", 3, 3, 2, "localp-boundary", "parents", 3),
+    ("w-localpb3-stable", 3, 3, 2, "localp-boundary", "stable", 2),
+]
+
+
+def witness_script(cid, d, depth, order, rule, crit, rounds):
+    obs = "dump g meta pidx points values coef"
+    ev = "evalb g x: " + " ".join(vlib.hexf(v) for v in [0.3, -0.45, 0.7][:d])
+    ls = ["case " + cid, "make localp g %d 1 %d %d %s" % (d, depth, order, rule), "load g peak", obs, "evalpts g", ev]
+    for _ in range(rounds):
+        ls += ["refsurp g %s %s -1" % (vlib.hexf(1e-3), crit), "load g peak", obs, "evalpts g", ev]
+    return {"family": "localp", "dims": d, "outs": 1, "rule": rule, "order": order, "depth": depth}, ls
+
+
 def gen_case(r, cid, tier):
     fam = r.choice(gl.FAMILIES)
     spec = gl.rand_spec(r, family=fam, max_dims=3 if tier == "quick" else 4)
@@ -157,6 +213,14 @@ def expand_deliveries(r, drv, wd, specs, scripts):
     return done
 
 
+def note_incomplete(stats, err, what):
+    """outside the statement (a parent is not loaded): observed, counted, not a violation"""
+    stats["incomplete_not_reproduced"] = stats.get("incomplete_not_reproduced", 0) + 1
+    if err > stats.get("incomplete_not_reproduced_max", 0.0):
+        stats["incomplete_not_reproduced_max"] = err
+        stats["incomplete_not_reproduced_worst"] = what
+
+
 def run(res, tier, seed, replay_script=None):
     props = vlib.coq_props(PID)
     vlib.proof_coverage(res, PID, props, "cd coq && make Props/Properties_C01.vo && coqc -Q . TV Props/Properties_C01.v", TRUSTED)
@@ -193,6 +257,8 @@ def run(res, tier, seed, replay_script=None):
         scripts["bigwav"] = ["case bigwav", "make wavelet g 1 1 10 1", "load g smooth", "dump g meta pidx points values", "evalpts g"]
         specs["bigwav2"] = {"family": "wavelet", "dims": 2, "outs": 1, "order": 1, "depth": 6}
         scripts["bigwav2"] = ["case bigwav2", "make wavelet g 2 1 6 1", "load g smooth", "dump g meta pidx points values", "evalpts g"]
+        for w in WITNESS:
+            specs[w[0]], scripts[w[0]] = witness_script(*w)
     lines = [l for cid in scripts for l in scripts[cid]]
     rc, cases, so, se = gl.run_scripts(drv, lines, wd, "hist", timeout=1500, case_timeout=20)
     if rc != 0:
@@ -202,6 +268,7 @@ def run(res, tier, seed, replay_script=None):
     lg_lines, lg_meta = [], {}
     sq_lines, sg_lines, sgres = [], [], {}
     fam_count, nontrivial = {}, 0
+    big_local = []
     for cid, steps in cases.items():
         spec = specs[cid]
         fam, d, outs = spec["family"], spec["dims"], spec["outs"]
@@ -245,6 +312,8 @@ def run(res, tier, seed, replay_script=None):
                 if fam == "localp":
                     cur["lid"] = lid
                     cur["evalpts"] = st
+                    if lid is None and spec.get("order", 1) != 0 and cur["pidx"]:
+                        big_local.append((cid, cur))    # too large for the exact model: the parent test of the statement is evaluated here
                     continue    # judged after the model has classified the grid (parent completeness)
                 if fam == "sequence" and cur["n"] <= 70 and not cur.get("ta") and cur["coef"] and len(cur["points"]) == cur["n"] * d:
                     # exact Newton surpluses from the implementation's own nodes (node of index m = coordinate of any point with that index)
@@ -367,10 +436,18 @@ def run(res, tier, seed, replay_script=None):
             mism.append("local grid %s is parent-complete but fails the certificate of the reproduction theorem [%s]" % (lid, scripts[cid][1]))
         if cert and nodeerr > 0.0:
             mism.append("local grid %s: certified but the model does not reproduce exactly (%.3g)" % (lid, nodeerr))
+        vals = cur["values"]
         if not complete:
             stats["skipped_incomplete"] += 1
+            ierr = max([max([abs(a - b) for a, b in zip(st.obs.get(tag, []), vals)] + [0.0]) for tag in ("eval", "evalb", "evalf")]) / scale
+            if ierr > TOL["localp"]:
+                note_incomplete(stats, ierr, scripts[cid][1])
+                if cert:
+                    # the certificate is the hypothesis of the reproduction theorem: a certified set must be reproduced whatever its parents
+                    stats["violations"] += 1
+                    res.violation("not-reproduced:localp-certified", "a loaded value of a parent-incomplete grid that passes the certificate of the reproduction theorem "
+                                  "is missed by %.3g [%s]" % (ierr, scripts[cid][1]), {"kind": "impl-counterexample", "script": scripts[cid], "error": ierr})
             continue
-        vals = cur["values"]
         for tag in ("eval", "evalb", "evalf"):
             y = st.obs.get(tag, [])
             err = max([abs(a - b) for a, b in zip(y, vals)] + [0.0]) / scale if len(y) == len(vals) else float("inf")
@@ -380,6 +457,27 @@ def run(res, tier, seed, replay_script=None):
                 res.violation("not-reproduced:localp:" + tag, "%s differs from the loaded values by %.3g at a loaded point of a parent-complete grid [%s]" % (tag, err, scripts[cid][1]),
                               {"kind": "impl-counterexample", "script": scripts[cid], "error": err})
                 break
+    for cid, cur in big_local:
+        spec = specs[cid]
+        st = cur["evalpts"]
+        vals = cur["values"]
+        scale = max([1.0] + [abs(v) for v in vals])
+        miss = local_missing_parents(spec["rule"], spec["order"], spec["dims"], cur["pidx"])
+        errs = {tag: (max([abs(a - b) for a, b in zip(st.obs.get(tag, []), vals)] + [0.0]) / scale if len(st.obs.get(tag, [])) == len(vals) else float("inf"))
+                for tag in ("eval", "evalb", "evalf")}
+        worst = max(errs.values())
+        if miss:
+            stats["skipped_incomplete"] += 1
+            if worst > TOL["localp"]:
+                note_incomplete(stats, worst, scripts[cid][1])
+            continue
+        stats["large_complete_local_states"] = stats.get("large_complete_local_states", 0) + 1
+        stats["max_err"]["localp"] = max(stats["max_err"].get("localp", 0.0), worst)
+        if worst > TOL["localp"]:
+            tag = max(errs, key=errs.get)
+            stats["violations"] += 1
+            res.violation("not-reproduced:localp:" + tag, "%s differs from the loaded values by %.3g at a loaded point of a parent-complete grid of %d points [%s]"
+                          % (tag, worst, cur["n"], scripts[cid][1]), {"kind": "impl-counterexample", "script": scripts[cid], "error": worst})
     for gid, rr in sgres.items():
         stats["standard_grids"] = stats.get("standard_grids", 0) + 1
         if rr.get("same") != "true":
@@ -416,6 +514,14 @@ def run(res, tier, seed, replay_script=None):
         "family_distribution": fam_count, "max_relative_error_by_family": stats["max_err"], "tolerance_by_family": TOL,
         "local_grids_modelled": stats["local_grids"], "sequence_grids_modelled": stats.get("sequence_grids", 0), "standard_grids_compared_with_std_grid_model": stats.get("standard_grids", 0), "local_grids_skipped_parent_incomplete": stats["skipped_incomplete"],
         "direct_property_violations": stats["violations"],
+        "local_states_too_large_for_the_model_judged_with_the_parent_test_here": stats.get("large_complete_local_states", 0),
+        "local_parent_incomplete_states_not_reproducing_outside_the_statement": {
+            "count": stats.get("incomplete_not_reproduced", 0), "largest_relative_error": stats.get("incomplete_not_reproduced_max", 0.0),
+            "worst": stats.get("incomplete_not_reproduced_worst", ""),
+            "why": "updateSurpluses follows computeDAGup's links to the nearest present ancestor; with a parent missing, an ancestor whose basis does not vanish at "
+                   "the node can be unreachable (semi-localp: the step-parent of points 3/4 is dropped once the walk has passed them). The faithful model "
+                   "Model/LocalGridUp.v computes the same surpluses and its certificate is false on these sets"},
+        "fixed_witness_histories": [w[0] for w in WITNESS],
     })
     res.assumptions = ["floating-point rounding enters only through the tolerances (relative to max(1, max|value|))",
                        "Global/Sequence/Wavelet/Fourier: no mechanistic model; the executable statement is evaluated on their observations"]
